@@ -146,6 +146,25 @@ pub const MUTATORS: &[&str] = &[
     "BASH_XTRACEFD=5",
     "PS4=changed",
     "HISTFILE=/nonexistent_c12/h",
+    "declare -n nr=v1; nr=via_nameref",
+    "assoc[k]=changed",
+    "unset 'assoc[k]'",
+    "unset 'arr[0]'",
+    "SECONDS=1000",
+    "OLDPWD=/nonexistent_c12",
+    "getopts ab: opt -b val; getopts ab: opt -b val",
+    "declare -u upper=abc",
+    "export -n v4",
+    "v4=reexported",
+    "local lv=1 2>/dev/null",
+    "FUNCNEST=3",
+    "BASH_ARGV0=renamed",
+    "set -o vi",
+    "shopt -s extdebug 2>/dev/null",
+    "enable -n probe",
+    "trap 'echo d' DEBUG",
+    "trap 'echo r' RETURN",
+    "trap 'probe leaked_exit' EXIT",
 ];
 
 pub const PROCESS_WIDE: &[&str] = &["umask 077", "ulimit -S -n 768"];
